@@ -935,6 +935,27 @@ pub mod verif_hooks {
         super::encoded::verif_bit_chunk(bytes, range)
     }
 
+    /// A container in encoded mode (as `merge_regions` leaves it, plus earlier pushes) around `code`, holding the
+    /// encoded `bytes`/`bits` and statistics that count `symbol` once.
+    pub fn encoded_container<B: Ord + Clone>(
+        code: Code<B>,
+        bytes: Vec<u8>,
+        bits: usize,
+        symbol: B,
+    ) -> super::HuffmanContainer<B> {
+        let mut stats = BTreeMap::new();
+        stats.insert(symbol, 1);
+        super::HuffmanContainer {
+            inner: Ok((code.0, bytes, bits)),
+            stats,
+        }
+    }
+
+    /// Is `container` in the state `Default::default()` produces: raw mode, no symbols stored, no statistics?
+    pub fn is_fresh<B: Ord + Clone>(container: &super::HuffmanContainer<B>) -> bool {
+        matches!(&container.inner, Err(raw) if raw.is_empty()) && container.stats.is_empty()
+    }
+
     /// A Huffman code (the private `Huffman<B>`), with access to its encoder, decoder and the container's
     /// `push_symbols`.
     pub struct Code<B: Ord>(Huffman<B>);
